@@ -45,6 +45,25 @@ template <class X> void mm_run(Ctx& c, uint64_t idx) {
     { QList* l = nullptr; int cnt = 0; int rc; { LibScope ls; rc = X::DissectQueryMallocExMm(&l, &cnt, qs.data(), qs.data() + qs.size(), URI_TRUE, URI_BR_DONT_TOUCH, &inc); } verdict("DissectQueryMallocExMm", rc); }
     { QList* l = nullptr; int cnt = 0; int rc0; { LibScope ls; rc0 = X::DissectQueryMallocExMm(&l, &cnt, qs.data(), qs.data() + qs.size(), URI_TRUE, URI_BR_DONT_TOUCH, good.mgr()); } if (rc0 == URI_SUCCESS) { int rc; { LibScope ls; rc = X::FreeQueryListMm(l, &inc); } verdict("FreeQueryListMm", rc); LibScope ls; X::FreeQueryListMm(l, good.mgr()); } }
     { int rc; { LibScope ls; rc = uriTestMemoryManager(&inc); } verdict("uriTestMemoryManager", rc); }
+    // the same question where the call would have nothing to allocate or release anyway: the manager is still rejected first
+    {
+        UriBox<X> O; if (O.parse(s, &good) == URI_SUCCESS && O.make_owner() == URI_SUCCESS) {
+            { int rc; { LibScope ls; rc = X::MakeOwnerMm(&O.u, &inc); } verdict("MakeOwnerMm(already-owner)", rc); }
+            O.normalize(63);
+            { int rc; { LibScope ls; rc = X::NormalizeSyntaxExMm(&O.u, 63, &inc); } verdict("NormalizeSyntaxExMm(already-normal)", rc); }
+            { int rc; { LibScope ls; rc = X::NormalizeSyntaxExMm(&O.u, 0, &inc); } verdict("NormalizeSyntaxExMm(mask=0)", rc); }
+        }
+        O.free_members();
+        { Uri z; memset(&z, 0, sizeof z); int rc; { LibScope ls; rc = X::FreeUriMembersMm(&z, &inc); } verdict("FreeUriMembersMm(nothing-to-free)", rc); }
+        { int rc; { LibScope ls; rc = X::FreeQueryListMm(nullptr, &inc); } verdict("FreeQueryListMm(NULL-list)", rc); }
+        { QList* l = nullptr; int cnt = 0; int rc; { LibScope ls; rc = X::DissectQueryMallocExMm(&l, &cnt, qs.data(), qs.data(), URI_TRUE, URI_BR_DONT_TOUCH, &inc); } verdict("DissectQueryMallocExMm(empty-range)", rc); }
+        { Uri u; memset(&u, 0, sizeof u); const Char* ep; int rc; { LibScope ls; rc = X::ParseSingleUriExMm(&u, w.data(), w.data(), &ep, &inc); } verdict("ParseSingleUriExMm(empty-text)", rc); if (rc == URI_SUCCESS) { LibScope ls; X::FreeUriMembersMm(&u, probe.mgr()); } }
+        UriBox<X> Rel; if (Rel.parse("x/y", &good) == URI_SUCCESS) {
+            { Uri d; memset(&d, 0, sizeof d); int rc; { LibScope ls; rc = X::AddBaseUriExMm(&d, &B.u, &Rel.u, URI_RESOLVE_STRICTLY, &inc); } verdict("AddBaseUriExMm(relative-base)", rc); }
+            { Uri d; memset(&d, 0, sizeof d); int rc; { LibScope ls; rc = X::RemoveBaseUriMm(&d, &Rel.u, &B.u, URI_FALSE, &inc); } verdict("RemoveBaseUriMm(relative-source)", rc); }
+        }
+        Rel.free_members();
+    }
     // the objects are still intact and can be released through the manager that created them
     A.free_members(); B.free_members();
     if (good.outstanding() || good.bad_free) { c.violation("C13", fmt("mm/%s/leak-or-bad-free-after-rejections", X::tag()), good.describe_live() + good.bad_free_note); good.release_all(); }
@@ -103,7 +122,38 @@ template <class X> uint64_t tour(Ctx& c) {
     }
     if (X::DissectQueryMallocEx(&l, &cnt, q.data(), q.data() + q.size(), URI_TRUE, URI_BR_TO_LF) == URI_SUCCESS) X::FreeQueryList(l); if (X::DissectQueryMallocExMm(&l, &cnt, q.data(), q.data() + q.size(), URI_TRUE, URI_BR_TO_LF, mm) == URI_SUCCESS) X::FreeQueryListMm(l, mm); calls += 4;
     { Str f = gen_filename_unix(r); typename X::S wf = widen<X>(f); std::vector<Char> o(8 + 3 * f.size() + 1), bk(8 + 3 * f.size() + 8); X::UnixFilenameToUriString(wf.c_str(), o.data()); X::UriStringToUnixFilename(o.data(), bk.data()); f = gen_filename_win(r); wf = widen<X>(f); o.assign(8 + 3 * f.size() + 1, 0); bk.assign(8 + 3 * f.size() + 8, 0); X::WindowsFilenameToUriString(wf.c_str(), o.data()); X::UriStringToWindowsFilename(o.data(), bk.data()); calls += 4; }
-    { unsigned char oct[4]; typename X::S ip = widen<X>("192.168.0.1"); X::ParseIpFourAddress(oct, ip.data(), ip.data() + ip.size()); calls++; }
+    { unsigned char oct[4]; typename X::S ip = widen<X>("192.168.0.1"); X::ParseIpFourAddress(oct, ip.data(), ip.data() + ip.size()); ip = widen<X>("1.2.3.256"); X::ParseIpFourAddress(oct, ip.data(), ip.data() + ip.size()); calls += 2; }
+    // the rarely taken paths of every entry point: failing parses (every entry point, optional out-parameters NULL), error returns,
+    // too-small buffers, NULL optional arguments, empty inputs
+    {
+        static const char* const BAD[] = {"a b", "http://[::1", "%zz", "//h:x", "s://h/%4", "[", "//[v1.]", "a#b#c", "//1.2.3.4:8x", ""};
+        Str bs = BAD[r.below(10)]; if (r.coin()) bs = mutate(r, a, 2); typename X::S wbad = widen<X>(bs); std::vector<Char> zbad(wbad.begin(), wbad.end()); for (auto& ch : zbad) if (!ch) ch = X::wid('x'); zbad.push_back(0);
+        Uri F; typename X::State s2; s2.uri = &F;
+        X::ParseUriEx(&s2, wbad.data(), wbad.data() + wbad.size()); X::FreeUriMembers(&F); X::ParseUri(&s2, zbad.data()); X::FreeUriMembers(&F);
+        X::ParseSingleUri(&F, zbad.data(), nullptr); X::FreeUriMembers(&F); X::ParseSingleUriEx(&F, wbad.data(), wbad.data() + wbad.size(), nullptr); X::FreeUriMembers(&F);
+        X::ParseSingleUriEx(&F, zbad.data(), nullptr, nullptr); X::FreeUriMembers(&F); X::ParseSingleUriExMm(&F, wbad.data(), wbad.data() + wbad.size(), nullptr, mm); X::FreeUriMembersMm(&F, mm); X::FreeUriMembersMm(&F, mm);
+        X::ParseSingleUriEx(&F, zbad.data(), nullptr, &ep); X::FreeUriMembers(&F); calls += 14;
+        // error returns of the two-operand functions: relative base / source
+        Uri Rl, Ab, Dd; memset(&Rl, 0, sizeof Rl); memset(&Ab, 0, sizeof Ab); typename X::S wrl = widen<X>("../x/./y?q"), wab = widen<X>("s://h/a/b");
+        if (X::ParseSingleUriEx(&Rl, wrl.data(), wrl.data() + wrl.size(), nullptr) == URI_SUCCESS && X::ParseSingleUriEx(&Ab, wab.data(), wab.data() + wab.size(), nullptr) == URI_SUCCESS) {
+            if (X::AddBaseUri(&Dd, &Ab, &Rl) == URI_SUCCESS) X::FreeUriMembers(&Dd); if (X::AddBaseUriExMm(&Dd, &Rl, &Rl, URI_RESOLVE_IDENTICAL_SCHEME_COMPAT, mm) == URI_SUCCESS) X::FreeUriMembersMm(&Dd, mm);
+            if (X::RemoveBaseUri(&Dd, &Rl, &Ab, URI_FALSE) == URI_SUCCESS) X::FreeUriMembers(&Dd); if (X::RemoveBaseUriMm(&Dd, &Ab, &Rl, URI_TRUE, mm) == URI_SUCCESS) X::FreeUriMembersMm(&Dd, mm);
+            if (X::AddBaseUri(&Dd, &Rl, &Ab) == URI_SUCCESS) { int nd = 0; X::ToStringCharsRequired(&Dd, &nd); std::vector<Char> tb((size_t)nd + 1); X::ToString(tb.data(), &Dd, nd + 1, nullptr); X::ToString(tb.data(), &Dd, 1, nullptr); X::ToString(tb.data(), &Dd, 0, nullptr); X::ToString(tb.data(), &Dd, -1, &wr); X::FreeUriMembers(&Dd); calls += 5; }
+            X::EqualsUri(&Rl, nullptr); X::EqualsUri(nullptr, nullptr); X::NormalizeSyntaxMaskRequiredEx(&Rl, &m2); X::NormalizeSyntaxEx(&Rl, 0); X::NormalizeSyntaxEx(&Rl, 0x40u); X::NormalizeSyntax(&Rl); calls += 10;
+        }
+        X::FreeUriMembers(&Rl); X::FreeUriMembers(&Ab);
+        // query functions: empty range, too-small buffers, optional NULLs
+        QList* l2 = nullptr; int c2 = 0; typename X::S qe = widen<X>(""), q2 = widen<X>("&&=&a&b=%zz&%0D%0A=+");
+        if (X::DissectQueryMalloc(&l2, &c2, qe.data(), qe.data()) == URI_SUCCESS) X::FreeQueryList(l2);
+        if (X::DissectQueryMallocEx(&l2, nullptr, q2.data(), q2.data() + q2.size(), URI_FALSE, URI_BR_TO_CR) == URI_SUCCESS && l2) { Char small[4]; int w3 = 0; X::ComposeQuery(small, l2, 1, &w3); X::ComposeQueryEx(small, l2, 3, nullptr, URI_TRUE, URI_TRUE); X::ComposeQueryEx(small, l2, 0, &w3, URI_FALSE, URI_FALSE); X::FreeQueryList(l2); calls += 4; }
+        X::FreeQueryList(nullptr); X::FreeQueryListMm(nullptr, mm); calls += 4;
+        // escaping: empty range, NULL tolerant paths, every break mode
+        Char e1[8]; X::EscapeEx(ws.data(), ws.data(), e1, URI_TRUE, URI_TRUE); for (int brm = 0; brm < 4; brm++) { std::vector<Char> io2(ws.begin(), ws.end()); io2.push_back(0); X::UnescapeInPlaceEx(io2.data(), brm & 1, (UriBreakConversion)brm); } calls += 5;
+        // filename conversions: the short input forms and names of every kind
+        static const char* const UF[] = {"file:/x", "file:c:/x", "file:///C:/x%20y", "file://srv/sh", "rel/x%41", "file:", "", "file://", "/abs"};
+        for (const char* u : UF) { typename X::S wu = widen<X>(u); std::vector<Char> o2(wu.size() + 4); X::UriStringToUnixFilename(wu.c_str(), o2.data()); X::UriStringToWindowsFilename(wu.c_str(), o2.data()); calls += 2; }
+        static const char* const WF[] = {"C:\\", "\\\\s", "\\x", "", "a", "C:\\a b\\c"}; for (const char* f2 : WF) { typename X::S wf2 = widen<X>(f2); std::vector<Char> o3(8 + 3 * wf2.size() + 1); X::WindowsFilenameToUriString(wf2.c_str(), o3.data()); X::UnixFilenameToUriString(wf2.c_str(), o3.data()); calls += 2; }
+    }
     { UriMemoryManager be, cm; memset(&be, 0, sizeof be); Ledger bl; be.malloc = bl.mm.malloc; be.free = bl.mm.free; be.userData = &bl; if (uriCompleteMemoryManager(&cm, &be) == URI_SUCCESS) { uriTestMemoryManager(&cm); void* p = uriEmulateCalloc(&cm, 3, 5); p = uriEmulateReallocarray(&cm, p, 7, 5); cm.free(&cm, p); calls += 5; } bl.release_all(); }
     led.release_all();
     return calls;
